@@ -53,6 +53,12 @@ func C12(r *Run) *core.Report {
 		rep.Check(diff == "", "C12.W2", "TTL computation twins", r.P.Pos(fa.Pos()), "equal tables", "the TTL computations differ: "+diff)
 	}
 	c12W3(r, rep)
+	// W5 (32-bit layout only): both twins keep their 64-bit atomic words aligned - a layout change in one twin that
+	// faults on 32-bit platforms makes the twins differ there (restated from C14.A7)
+	if r.P.GOARCH == "386" {
+		n5 := borrow(rep, C14(r), "C12.W5", "C14.A7")
+		rep.MinCount("C12.W5", "premise obligations (64-bit atomic operands aligned on 386)", n5, 2)
+	}
 	c12W4(r, rep)
 	return rep
 }
